@@ -88,6 +88,13 @@ pub fn run(ctx: &Ctx, rep: &mut Report) {
                 set_probe_fail(&mut u, &toks[2], probe_refuses);
                 rep.step(format!("probe token refuses transfers: {}", probe_refuses));
             }
+            if rng.chance(1, 12) {
+                let d = rng.ledger_jump();
+                if u.advance(d) {
+                    rep.step(format!("ledger advances by {}", d));
+                    rep.count("advance-ledger");
+                }
+            }
             let op = *rng.pick(&OPS);
             let ti = rng.usize(3);
             let t = toks[ti].clone();
